@@ -4,7 +4,7 @@
   needs more than `8·n + 1` passes; with `8·n < 200 = MAX_ITERATIONS` the iteration stamp never
   overflows.  Core Lean only.
 -/
-import SalsaVerif.Proofs.CycleChainLoop
+import SalsaVerif.Proofs.CycleChainSim2
 
 namespace SalsaVerif.Proofs.Cycle
 open SalsaVerif.Model.Cycle SalsaVerif.Gen.Stamp
@@ -109,13 +109,13 @@ theorem pass_measure (l0 e r0 : St) (vl lastl v' : Nat) (r1 : St)
 /-- **termination of the head loop**: from pass `t ≥ 1` on (with the measure of pass `t-1` at
     least `t-1`) the loop of an outermost head ends in a value. -/
 theorem loop_ok (hR : ReadSpec P env read) (hS : ReadSim P env read) (hNF : NoFallback P)
-    (hn : 8 * P.n < 200) :
+    (hG : P.NoGate) (hn : 8 * P.n < 200) :
     ∀ (fuel stamp : Nat) (l0 e r0 : St) (vl lastl : Nat),
       PrevPass P env read j rest l0 e r0 vl lastl → stamp < 2^16 →
       fuel + IterationStamp.iteration stamp = 201 →
       IterationStamp.iteration stamp
         ≤ total (passVal e j (cycleFn P j lastl vl)) P.n + 1 →
-      ∃ v hs s', executeMaybeIterate P env read j true fuel stamp r0 = .ok (v, hs, s') := by
+      ∃ v hs s', executeMaybeIterate P env read j fuel stamp r0 = .ok (v, hs, s') := by
   intro fuel
   induction fuel with
   | zero =>
@@ -124,16 +124,16 @@ theorem loop_ok (hR : ReadSpec P env read) (hS : ReadSim P env read) (hNF : NoFa
     omega
   | succ fuel ih =>
     intro stamp l0 e r0 vl lastl hP hs hsum hmu
-    obtain ⟨v', r1, hN⟩ := pass_next P env read j rest hR hS hNF l0 e r0 vl lastl hP
+    obtain ⟨v', r1, hN⟩ := pass_next P env read j rest hR hS hNF hG l0 e r0 vl lastl hP
     obtain ⟨hs', hevr⟩ := hN.run
     cases hc : converged (cache1Of r1 j (cycleFn P j (cycleFn P j lastl vl) v')) r1.prov with
     | true =>
-      exact ⟨_, _, _, emi_conv P env read j true fuel stamp r0 hevr hN.last1 (belowOf_true r1) hc⟩
+      exact ⟨_, _, _, emi_conv P env read j fuel stamp r0 hevr hN.last1 hN.notBelow hc⟩
     | false =>
       have hlt := pass_measure P env read j rest l0 e r0 vl lastl v' r1 hN hP.invE hc
       have hbound := total_le (passVal r1 j (cycleFn P j (cycleFn P j lastl vl) v')) P.n
       obtain ⟨stamp', hi, hit', hs'2⟩ := incr_ok stamp hs (by omega)
-      rw [emi_iter P env read j true fuel stamp r0 hevr hN.last1 (belowOf_true r1) hc hi]
+      rw [emi_iter P env read j fuel stamp r0 hevr hN.last1 hN.notBelow hc hi]
       exact ih stamp' r0 r1 _ v' _ hN.next hs'2 (by omega) (by omega)
 
 end
